@@ -38,8 +38,10 @@ TRUSTED = [
     "modelled, not verified: Rust's char::escape_debug Unicode tables (Grapheme_Extend / printable) enter the model "
     "as the per-case list of code points the real formatter writes as \\u{..}; the list is obtained from real Rust "
     "(h_ssr c12 op 0) at generation time and every theorem holds for an arbitrary such predicate",
-    "modelled, not verified: serde_json's string escaping and FromToStringCodec (Script.json_string / encode), "
-    "compared with the real codecs on every resource case",
+    "modelled, not verified: serde_json's string escaping, FromToStringCodec and FromToBytesCodec<String> (Script.json_string / "
+    "encode), compared with the real codecs on every resource case; the base64 engine (STANDARD_NO_PAD) is builder C13's model "
+    "ServerFn.ErrorCodec.b64_encode/b64_decode (imported, with its round-trip proof), here compared with the real engine through "
+    "IntoEncodedString for Vec<u8> on every binary-codec case incl. all block-size boundaries",
     "browser side is a model: ECMAScript string-literal grammar (ES2019 12.8.4 + Annex B.1.2, sloppy mode) transcribed "
     "in Script.js_step, and independently in gen/jsliteral.py (cross-checked against node v20 on 6000 random "
     "literals during development); wasm-bindgen's as_string modelled as UTF-16 -> scalar values with U+FFFD for lone "
@@ -604,7 +606,8 @@ def coverage_extra(results):
 
 
 LEVEL_TEXT = ("Coq proofs, for all strings of Unicode scalar values and every Debug-escape table, that the string literal "
-              "ssr.rs emits decodes under the ECMAScript string-literal grammar to exactly the string written, that no "
+              "ssr.rs emits decodes under the ECMAScript string-literal grammar to exactly the string written, that every byte "
+              "buffer sent through the binary encoding (base64) is decoded back to exactly that buffer, that no "
               "emitted chunk contains '<' (hence neither </script nor <!--), whatever payloads, error messages, ids and "
               "completion orders, and that the ids handed out to hydrated code on the server are 0,1,2,... exactly as "
               "the browser hands them out, disjoint from the ids of non-hydrated regions \u2014 about an executable Gallina "
